@@ -36,17 +36,32 @@ def some_(
         observer: abc.ObserverBase[bool],
         scheduler: abc.SchedulerBase | None = None,
     ):
+        done = False
+
         def on_next(_: _T):
+            nonlocal done
+            if done:
+                return
+            # recorded before the downstream call: a source re-entered from
+            # inside observer.on_next(True) must not produce a second result
+            done = True
             observer.on_next(True)
             observer.on_completed()
 
         def on_error():
+            nonlocal done
+            if done:
+                return
+            done = True
             observer.on_next(False)
             observer.on_completed()
 
-        return source.subscribe(
-            on_next, observer.on_error, on_error, scheduler=scheduler
-        )
+        def on_failure(error: Exception) -> None:
+            if done:
+                return
+            observer.on_error(error)
+
+        return source.subscribe(on_next, on_failure, on_error, scheduler=scheduler)
 
     if predicate:
         return source.pipe(
